@@ -39,7 +39,7 @@ HOOK = {'calls': 0, 'violations': [], 'snap': {}}
 def gates(tier):
     return {'name_set_checks': 6000, 'confusable_checks': 40, 'history_steps': 60000,
             'history_sequences': 20000, 'failing_events_in_histories': 10000,
-            'cache_hits_in_histories': 5000, 'hook_calls': 60000, 'random_histories': 100, 'absolute_probes': 500}
+            'cache_hits_in_histories': 5000, 'hook_calls': 60000, 'random_histories': 100, 'absolute_probes': 500, 'arity_checks': 4000}
 
 
 # ----------------------------------------------------------------------------- (C) hook
@@ -154,7 +154,7 @@ def scopes():
     vb.update({'x': -1.0, 'y': 0.0, 'undefinedvar': 4.0, 'vv': 2.0})
     fb = dict(DEFAULT_FUNCTIONS)
     fb['zork'] = lambda a: a
-    B = (vb, fb, {'%': 0.01})
+    B = (vb, fb, {'%': 0.01, 'M': 5.0, 'k': 1024.0})
     return A, B
 
 
@@ -165,6 +165,7 @@ ALPHABET = [
     'x1+y', 'x\t1+y',      # a tab inside a name is significant: the second string is outside the grammar
     '[vv,vv]+0*[vv,vv]',   # vv is a vector in scope A (the literal is a matrix) and a number in scope B (a vector)
     'x +* y', 'zork(x)+*2k',   # blank variants of malformed strings above: every message quotes the caller's own spelling
+    '5k+3%', '2M',             # no names at all: the value still depends on the suffix table of the CURRENT call (k only in A, M only in B)
 ]
 
 
@@ -404,8 +405,48 @@ def run_names(ctx):
                         'functions': sorted(gen.used_funcs), 'suffixes': sorted(gen.used_sufs)})
 
 
+def run_arity(ctx):
+    """Scope functions created for one call and thrown away: the arity that counts is that of the function passed NOW."""
+    from mitxgraders.helpers.calc import expressions as E
+    from mitxgraders.helpers.calc import DEFAULT_VARIABLES
+    rng = ctx.rng
+
+    def make_fn(k):
+        if k == 1:
+            return lambda a: a + 1.0
+        if k == 2:
+            return lambda a, b: a + 2.0 * b
+        if k == 3:
+            return lambda a, b, c: a + b * c
+        return lambda a, b, c, d: a + b + c + d
+    want = {1: lambda v: v[0] + 1.0, 2: lambda v: v[0] + 2.0 * v[1], 3: lambda v: v[0] + v[1] * v[2], 4: lambda v: sum(v)}
+    for i in range(ctx.n(4800, 60000)):
+        k = rng.randint(1, 4)
+        m = rng.choice([k, k, rng.randint(1, 4)])
+        vals = [float(rng.randint(1, 9)) for _ in range(m)]
+        s = 'fn(%s)+0*%d' % (','.join('%r' % v for v in vals), rng.randint(0, 50))
+        funcs = {'fn': make_fn(k)}          # a new function object every time; the previous one is garbage by now
+        try:
+            v, meta = E.evaluator(s, DEFAULT_VARIABLES, funcs, {'%': 0.01})
+            out = ('ok', v)
+        except Exception as exc:  # noqa
+            out = ('exc', type(exc).__name__, str(exc)[:100])
+        del funcs
+        ctx.ev()
+        ctx.count('arity_checks')
+        wit = {'string': s, 'function_takes': k, 'arguments_given': m, 'outcome': str(out)[:200]}
+        if m == k:
+            if out[0] != 'ok' or abs(out[1] - want[k](vals)) > 1e-9:
+                ctx.violation('C10:arity:correct_call_rejected', 'a %d-argument function called with %d arguments: %r' % (k, m, out), wit)
+        else:
+            ctx.nontrivial(['arity', k, m])
+            if out[0] == 'ok' or out[1] != 'ArgumentError':
+                ctx.violation('C10:arity:wrong_call_not_an_argument_error', 'a %d-argument function called with %d arguments: %r' % (k, m, out), wit)
+
+
 def run(ctx):
     install_hook(ctx)
+    run_arity(ctx)
     run_names(ctx)
     run_histories(ctx)
     if ctx.inconclusive:
